@@ -44,9 +44,8 @@ def collect_first(_, nodes):
     Elements = Elements Element;
     """
     e1, e2 = nodes
-    if e2 is not None:
-        e1 = list(e1)
-        e1.append(e2)
+    e1 = list(e1)
+    e1.append(e2)
     return e1
 
 
@@ -56,9 +55,8 @@ def collect_first_sep(_, nodes):
     Elements = Elements "," Element;
     """
     e1, _, e2 = nodes
-    if e2 is not None:
-        e1 = list(e1)
-        e1.append(e2)
+    e1 = list(e1)
+    e1.append(e2)
     return e1
 
 
